@@ -331,6 +331,9 @@ pub struct ScriptedWriter<'a> {
     /// with `fault` / `zero_at`: the sink fails only once at that position and accepts writes again afterwards (a
     /// transient condition: a signal, a full pipe that drains, a quota that is lifted)
     pub fault_is_transient: bool,
+    /// number of times the sink was shut down (`AsyncWrite::poll_shutdown`); a sink that was shut down is closed:
+    /// every later write fails with BrokenPipe, as on a socket
+    pub shutdowns: usize,
     pub calls: usize,
     max_calls: usize,
     pub flushes: usize,
@@ -360,6 +363,7 @@ impl<'a> ScriptedWriter<'a> {
             fault: None,
             zero_at: None,
             fault_is_transient: false,
+            shutdowns: 0,
             calls: 0,
             max_calls: expected_len * 2 + steps.len() + 64,
             flushes: 0,
@@ -387,6 +391,9 @@ impl<'a> ScriptedWriter<'a> {
         self.calls += 1;
         if self.calls > self.max_calls {
             panic!("MQV-SPIN sink written {} times", self.calls);
+        }
+        if self.shutdowns > 0 {
+            return Err(io::Error::new(io::ErrorKind::BrokenPipe, "write after the sink was shut down"));
         }
         let step = self.steps.get(self.step_idx).copied();
         self.step_idx += 1;
@@ -486,6 +493,7 @@ impl<'a> AsyncWrite for ScriptedWriter<'a> {
         Poll::Ready(Ok(()))
     }
     fn poll_shutdown(self: Pin<&mut Self>, _cx: &mut Context<'_>) -> Poll<io::Result<()>> {
+        self.get_mut().shutdowns += 1;
         Poll::Ready(Ok(()))
     }
 }
